@@ -676,6 +676,8 @@ enum FontClass {
     Images,
     /// any loadable seed font (symbol-encoded, CFF, WOFF, WOFF2, ...)
     Any,
+    /// a seed font with one optional table truncated / overwritten, so that lazy loaders fail
+    Faulted,
     Generated,
 }
 
@@ -781,6 +783,45 @@ impl C03 {
         }
         out
     }
+}
+
+const FAULT_TABLES: &[&str] = &["GDEF", "GSUB", "GPOS", "kern", "vhea", "vmtx", "OS/2", "fvar", "post", "sbix", "SVG ", "EBLC", "CBLC", "morx", "avar"];
+
+/// One optional table of a plain sfnt font truncated, zeroed or with a damaged header.
+fn fault_font(data: &[u8], rng: &mut Rng) -> Option<(Vec<u8>, String)> {
+    let mut f = crate::sfnt::Font::parse(data)?;
+    let present: Vec<&str> = FAULT_TABLES.iter().copied().filter(|t| f.gets(t).is_some()).collect();
+    if present.is_empty() {
+        return None;
+    }
+    let t = *rng.pick(&present);
+    let mut d = f.gets(t)?.to_vec();
+    let kind = match rng.below(4) {
+        0 => {
+            d.truncate(rng.below(d.len().min(64) + 1));
+            "truncated"
+        }
+        1 => {
+            let n = d.len().min(2 + rng.below(10));
+            for b in d.iter_mut().take(n) {
+                *b = 0xFF;
+            }
+            "header-ff"
+        }
+        2 => {
+            for b in d.iter_mut() {
+                *b = 0;
+            }
+            "zeroed"
+        }
+        _ => {
+            let keep = d.len() / 2;
+            d.truncate(keep);
+            "halved"
+        }
+    };
+    f.sets(t, d);
+    Some((f.build(), format!("{}:{}", t.trim(), kind)))
 }
 
 fn gen_tuples(g: &GenFont, rng: &mut Rng) -> Option<(Vec<Vec<i16>>, Vec<OwnedTuple>)> {
@@ -913,6 +954,7 @@ impl C03 {
         // --- the font, its tuples and pools
         let gen: Option<GenFont>;
         let mut real_fv = false;
+        let faulted_bytes: Vec<u8>;
         let mut gen_raw_tuples: Vec<Vec<i16>> = Vec::new();
         let (bytes, name, tuples, pools): (&[u8], String, Vec<OwnedTuple>, Pools) = match class {
             FontClass::Generated => {
@@ -929,6 +971,24 @@ impl C03 {
                 gen = Some(g);
                 let g = gen.as_ref().map(|g| g.bytes.as_slice()).unwrap_or(&[]);
                 (g, "generated".to_string(), owned, pools)
+            }
+            FontClass::Faulted => {
+                gen = None;
+                let f = &self.fonts[*rng.pick(&self.all)];
+                match fault_font(&f.data, rng) {
+                    Some((b, what)) => {
+                        faulted_bytes = b;
+                        for part in what.split(':') {
+                            cx.class(&format!("faulted:{}", part));
+                        }
+                        let pools = self.real_pools(f, class, 0, rng);
+                        (faulted_bytes.as_slice(), format!("{} [{}]", f.name, what), Vec::new(), pools)
+                    }
+                    None => {
+                        cx.class("faulted:not-applicable");
+                        return;
+                    }
+                }
             }
             _ => {
                 gen = None;
@@ -953,7 +1013,11 @@ impl C03 {
         let mut long = match load_font(bytes) {
             Some(f) => f,
             None => {
-                cx.inconclusive(if class == FontClass::Generated { "gen:font-not-loadable" } else { "font-not-loadable" });
+                if class == FontClass::Faulted {
+                    cx.class("faulted:font-not-loadable");
+                } else {
+                    cx.inconclusive(if class == FontClass::Generated { "gen:font-not-loadable" } else { "font-not-loadable" });
+                }
                 return;
             }
         };
@@ -1213,13 +1277,15 @@ impl Prop for C03 {
             "variable" => self.history_case(cx, rng, FontClass::Variable),
             "images" => self.history_case(cx, rng, FontClass::Images),
             "any" => self.history_case(cx, rng, FontClass::Any),
+            "faulted" => self.history_case(cx, rng, FontClass::Faulted),
             _ => match rng.below(100) {
                 0..=8 => self.pure.case(cx, rng),
                 9..=11 => self.outline.case(cx, rng),
                 12..=39 => self.history_case(cx, rng, FontClass::Generated),
                 40..=71 => self.history_case(cx, rng, FontClass::Shaping),
                 72..=83 => self.history_case(cx, rng, FontClass::Variable),
-                84..=91 => self.history_case(cx, rng, FontClass::Images),
+                84..=89 => self.history_case(cx, rng, FontClass::Images),
+                90..=94 => self.history_case(cx, rng, FontClass::Faulted),
                 _ => self.history_case(cx, rng, FontClass::Any),
             },
         }
